@@ -182,3 +182,96 @@ func algorithmHashTable(c *Ctx, r *Report, rule string) {
 		r.check(name == w, rule, construct, c.pos(e.Pos()), w, "algorithm %d is hashed with %s; its RFC specifies %s: Sign and Verify agree with each other, but the signatures are not the RFC's and signatures made elsewhere are refused", k, name, w)
 	}
 }
+
+// ecdsaWidths: the ECDSA writer (setPublicKeyECDSA) and reader (publicKeyECDSA) agree on the coordinate width per
+// algorithm, and it is RFC 6605's: algorithm 13 -> 32 octets per coordinate (64 in the key), 14 -> 48 (96).
+func ecdsaWidths(c *Ctx, r *Report, rule string) {
+	algs := c.algorithmConsts()
+	type entry struct{ alg, width int64 }
+	collect := func(fname string, wantAssign bool) (map[int64]int64, bool) {
+		fd := c.decl(fname)
+		if fd == nil || fd.Body == nil {
+			return nil, false
+		}
+		out := map[int64]int64{}
+		ast.Inspect(fd.Body, func(n ast.Node) bool {
+			cc, ok := n.(*ast.CaseClause)
+			if !ok {
+				return true
+			}
+			var keys []int64
+			okKeys := true
+			for _, e := range cc.List {
+				v, isK := c.exprConst(e)
+				id, isId := ast.Unparen(e).(*ast.Ident)
+				if !isK || !isId {
+					okKeys = false
+					continue
+				}
+				_ = algs
+				_ = id
+				keys = append(keys, v)
+			}
+			if !okKeys || len(keys) == 0 {
+				return true
+			}
+			// the width constant in the body: `intlen = K` or `len(keybuf) != K`
+			var width int64 = -1
+			for _, st := range cc.Body {
+				ast.Inspect(st, func(m ast.Node) bool {
+					switch t := m.(type) {
+					case *ast.AssignStmt:
+						if wantAssign && len(t.Rhs) == 1 {
+							if v, ok := c.exprConst(t.Rhs[0]); ok {
+								width = v
+							}
+						}
+					case *ast.BinaryExpr:
+						if !wantAssign {
+							if v, ok := c.exprConst(t.Y); ok {
+								if call, isCall := t.X.(*ast.CallExpr); isCall && c.calleeName(call) == "builtin.len" {
+									width = v
+								}
+							}
+						}
+					}
+					return true
+				})
+			}
+			if width >= 0 {
+				for _, k := range keys {
+					out[k] = width
+				}
+			}
+			return true
+		})
+		return out, true
+	}
+	w, ok1 := collect("DNSKEY.setPublicKeyECDSA", true)
+	rd, ok2 := collect("DNSKEY.publicKeyECDSA", false)
+	if !ok1 || !ok2 {
+		r.cerr(rule, "ecdsa", "setPublicKeyECDSA / publicKeyECDSA not found")
+		return
+	}
+	want := map[int64]int64{13: 32, 14: 48}
+	var problems []string
+	for alg, cw := range want {
+		if got, ok := w[alg]; !ok {
+			problems = append(problems, fmt.Sprintf("setPublicKeyECDSA has no coordinate width for algorithm %d (it would encode with width 0: coordinates with leading zero octets come out short)", alg))
+		} else if got != cw {
+			problems = append(problems, fmt.Sprintf("setPublicKeyECDSA pads algorithm %d coordinates to %d octets, RFC 6605 needs %d", alg, got, cw))
+		}
+		if got, ok := rd[alg]; !ok {
+			problems = append(problems, fmt.Sprintf("publicKeyECDSA has no key length test for algorithm %d", alg))
+		} else if got != 2*cw {
+			problems = append(problems, fmt.Sprintf("publicKeyECDSA expects %d octets for algorithm %d, RFC 6605 needs %d", got, alg, 2*cw))
+		}
+	}
+	for alg := range w {
+		if _, ok := want[alg]; !ok {
+			problems = append(problems, fmt.Sprintf("setPublicKeyECDSA has a width for %d, which is not an ECDSA signature algorithm number (13, 14)", alg))
+		}
+	}
+	sort.Strings(problems)
+	r.check(len(problems) == 0, rule, "ECDSA coordinate widths", "", "13:32/64, 14:48/96", "%s", strings.Join(problems, "; "))
+}
